@@ -196,6 +196,9 @@ def main():
     for i, evs, lines, nb, r, rep in vals:
         ck.add_tlc(r, "TraceRenderPool run %d" % i)
         nev += len(lines)
+        # an actual case for the evidence: the schedule parameters and the head of its validated pool-event trace
+        ck.sample({"run": {"mode": runs[i][0], "goroutines": runs[i][1], "renders_or_millis": runs[i][2]},
+                   "events_validated": len(lines), "trace_head": evs[:10]}, limit=3)
         for k, v in rep["cnt"].items():
             cnt[k] = cnt.get(k, 0) + v
         for v in rep["viol"][:10]:
